@@ -583,16 +583,19 @@ func ruleRangeBuild(r *Run) {
 	}
 	atom := fieldAtoms(map[string]string{"Start": "T:start", "End": "T:end", "Range": "range", "Duration": "offset"})
 	var sel, ra *ssa.Call
-	for _, c := range callsIn(bf) {
-		call, ok := c.(*ssa.Call)
-		if !ok {
-			continue
-		}
-		if call.Call.Value == ssa.Value(bf.Params[1]) {
-			sel = call
-		}
-		if callIs(call, mp, "RangeAggregation") {
-			ra = call
+	for _, gf := range funcGroup(bf) {
+		for _, c := range callsIn(gf) {
+			call, ok := c.(*ssa.Call)
+			if !ok {
+				continue
+			}
+			// the sample selector: a dynamic call of a parameter of type SampleSelector
+			if _, ok := call.Call.Value.(*ssa.Parameter); ok && !call.Call.IsInvoke() && call.Call.Signature().Results().Len() == 2 && isResourceType(call.Call.Signature().Results().At(0).Type()) {
+				sel = call
+			}
+			if callIs(call, mp, "RangeAggregation") {
+				ra = call
+			}
 		}
 	}
 	if sel == nil || ra == nil {
